@@ -676,7 +676,7 @@ Section Completes.
     intros R Hi Hc. pose proof (rI n np std Hn Hnp s R) as I.
     assert (En : st_n s = n) by (eapply st_n_const; eauto).
     assert (Q : sp_quiet (st_pool s) = true) by (apply (closed_quiet _ s i I); lia).
-    split; auto. eapply quiet_quiescent; eauto.
+    split; auto. exact (quiet_quiescent n np std Hn Hnp s R Q).
   Qed.
 End Completes.
 
